@@ -2383,8 +2383,14 @@ func writeKeeper(repo, module, typesOut, keeperOut string) {
 	sort.Strings(allNames)
 	var sb strings.Builder
 	sb.WriteString("(* GENERATED by /verif/translator (gokeeper.go) from /repo/x/" + cur.name + "/keeper/{" + strings.Join(cur.goFiles, ",") + "} on every check.\n")
-	sb.WriteString("   State-passing rendering of the keeper and message-server code against the hand-written primitives it imports.\n")
-	sb.WriteString("   The proofs/Generated*Eq.v files prove these equal to the hand-written model. Do not edit. *)\n")
+	if cur.world == "sworld" {
+		sb.WriteString("   SECOND rendering of the same keeper and message-server code: its store primitives are the GENERATED store accessors\n")
+		sb.WriteString("   (GeneratedStreamStore.v) over the byte-keyed store, through the adapters of model/StreamStoreWorld.v.\n")
+		sb.WriteString("   proofs/GeneratedStreamOnStoreEq.v proves that it simulates the rendering over the hand-written primitives. Do not edit. *)\n")
+	} else {
+		sb.WriteString("   State-passing rendering of the keeper and message-server code against the hand-written primitives it imports.\n")
+		sb.WriteString("   The proofs/Generated*Eq.v files prove these equal to the hand-written model. Do not edit. *)\n")
+	}
 	sb.WriteString("From Coq Require Import String.\nFrom MC Require Import " + cur.imports + ".\nOpen Scope Z_scope.\n\n")
 	funcs := map[string]fnSig{}
 	// pure helpers of package types
